@@ -453,11 +453,33 @@ func c20RepeatTokens(rt *rapid.T, data []byte) []byte {
 	return []byte(out)
 }
 
+// c20StringForms are string literals as a rule author may write them; not all of them are valid.
+var c20StringForms = []string{`"a""b"`, `'it''s'`, `"say ""hi"""`, `""""`, `''''`, `"a" "b"`, `"\d+"`, `"\"`, `"a\"`, `"\\\"`, `'\''`, `"\u12"`, `"\x"`, `"\xZZ"`, `"\777"`,
+	`"\U0011FFFF"`, `"'"`, `'"'`, `"a'b'c"`, `'a"b"c'`, `"a\"b"`, `"tab\t"`, `"nl\n"`, `""`, `''`, `"x`, `'x`, `x"`, "\"a\nb\"", "\"\x00\"", `"é"`, "\"\xff\"", `"""`, `'''`, `"\'"`, `'\"'`}
+
 func c20Structure(rt *rapid.T, target int) []byte {
 	n := rapid.IntRange(1, 30).Draw(rt, "struct_n") // chains stay below the open finding's signature
 	switch target {
 	case c20GRL:
-		switch rapid.IntRange(0, 12).Draw(rt, "struct_kind") {
+		switch rapid.IntRange(0, 13).Draw(rt, "struct_kind") {
+		case 13:
+			// string literals in every lexical form the grammar admits or nearly admits (doubled quotes, escapes the
+			// decoder does not know, a backslash at the end, adjacent literals), at every place a literal may stand
+			lit := func(label string) string {
+				return rapid.SampledFrom(c20StringForms).Draw(rt, label)
+			}
+			switch rapid.IntRange(0, 4).Draw(rt, "literal_place") {
+			case 0:
+				return []byte("rule D { when F.S == " + lit("l1") + " then Retract(\"D\"); }")
+			case 1:
+				return []byte("rule D { when F.S.In(" + lit("l1") + ", " + lit("l2") + ") then F.S = " + lit("l3") + "; }")
+			case 2:
+				return []byte("rule D " + lit("l1") + " salience 1 { when true then F.S = " + lit("l2") + " + " + lit("l3") + "; }")
+			case 3:
+				return []byte("rule D { when F.M[" + lit("l1") + "] == 1 && " + lit("l2") + ".Len() > 0 then F.M[" + lit("l3") + "] = 2; Retract(" + lit("l4") + "); }")
+			default:
+				return []byte("rule D { when " + lit("l1") + " then " + lit("l2") + "; }")
+			}
 		case 11:
 			// very many lexical / syntax errors on one long line
 			unit := rapid.SampledFrom([]string{"# @ $ ~ ", ": ", "\" ", "} { ", "rule ", "1e ", "0x "}).Draw(rt, "error_unit")
@@ -512,7 +534,15 @@ func c20Structure(rt *rapid.T, target int) []byte {
 			return []byte(b.String())
 		}
 	case c20JSONRule:
-		switch rapid.IntRange(0, 5).Draw(rt, "struct_kind") {
+		switch rapid.IntRange(0, 6).Draw(rt, "struct_kind") {
+		case 6:
+			// raw condition / action strings carrying string literals of every lexical form
+			doc := map[string]interface{}{"name": "D", "when": "F.S == " + rapid.SampledFrom(c20StringForms).Draw(rt, "l1"),
+				"then": []interface{}{"F.S = " + rapid.SampledFrom(c20StringForms).Draw(rt, "l2"), map[string]interface{}{"set": []interface{}{"F.S", map[string]interface{}{"const": rapid.SampledFrom(c20StringForms).Draw(rt, "l3")}}}}}
+			if b, err := json.Marshal(doc); err == nil {
+				return b
+			}
+			return []byte(`{}`)
 		case 4:
 			// a null where a value is expected
 			return []byte(rapid.SampledFrom([]string{`[null]`, `null`, `[{"name":"A","when":"true","then":["F.I64 = 1"]},null]`, `{"name":null,"when":null,"then":null}`,
